@@ -436,26 +436,32 @@ def ctorBlocks : Mech → List Block
 
 def blocksChain (m : Mech) (bs : List Block) : Chain := bs.flatMap (chainOf m)
 
-/-- what the constructor passes to `_check_epsilon_delta` for the parameters the class does not expose -/
+/-- the constant a constructor passes up to `DPMechanism.__init__` for the parameter the class does not expose -/
+def ctorFix : Mech → Option (Var × PyVal)
+  | .Binary => some (.delta, .flt .zero)
+  | .Bingham => some (.delta, .int 0)
+  | .Exponential => some (.delta, .flt .zero)
+  | .PermuteAndFlip => some (.delta, .flt .zero)
+  | .ExponentialCategorical => some (.delta, .flt .zero)
+  | .ExponentialHierarchical => some (.delta, .flt .zero)
+  | .Geometric => some (.delta, .flt .zero)
+  | .GeometricTruncated => some (.delta, .flt .zero)
+  | .GeometricFolded => some (.delta, .flt .zero)
+  | .Snapping => some (.delta, .flt .zero)
+  | .Staircase => some (.delta, .int 0)
+  | .Vector => some (.delta, .flt .zero)
+  | .Uniform => some (.epsilon, .flt .zero)
+  | _ => Option.none
+
+/-- what the constructor's checks see: the fixed constant of `ctorFix`; for Staircase `gamma=None` is replaced by
+1 / (1 + exp(epsilon / 2)) ∈ [0, 1/2] before it is checked -/
 def ctorEnv (m : Mech) (env : Env) : Env :=
-  let fixDelta (v : PyVal) : Env := { env with v := fun x => if x = .delta then v else env.v x }
-  match m with
-  | .Binary => fixDelta (.flt .zero)
-  | .Bingham => fixDelta (.int 0)
-  | .Exponential => fixDelta (.flt .zero)
-  | .PermuteAndFlip => fixDelta (.flt .zero)
-  | .ExponentialCategorical => fixDelta (.flt .zero)
-  | .ExponentialHierarchical => fixDelta (.flt .zero)
-  | .Geometric => fixDelta (.flt .zero)
-  | .GeometricTruncated => fixDelta (.flt .zero)
-  | .GeometricFolded => fixDelta (.flt .zero)
-  | .Snapping => fixDelta (.flt .zero)
-  | .Staircase =>   -- delta = 0; `gamma=None` is replaced by 1 / (1 + exp(epsilon / 2)) ∈ [0, 1/2] before it is checked
-    { env with v := fun x => if x = .delta then .int 0
-                             else if x = .gamma ∧ env.v .gamma = .none then .flt .half else env.v x }
-  | .Vector => fixDelta (.flt .zero)
-  | .Uniform => { env with v := fun x => if x = .epsilon then .flt .zero else env.v x }
-  | _ => env
+  let env1 : Env := match ctorFix m with
+    | some (x, v) => { env with v := fun y => if y = x then v else env.v y }
+    | Option.none => env
+  if m = .Staircase ∧ env.v .gamma = .none then
+    { env1 with v := fun y => if y = .gamma then .flt .half else env1.v y }
+  else env1
 
 /-- `Mech(**params)`: result kind of the validation performed by the constructor -/
 def construct (m : Mech) (env : Env) : Except VErr Unit := runChain (ctorEnv m env) (blocksChain m (ctorBlocks m))
@@ -538,6 +544,17 @@ def AccV.spend (a : AccV) (env : Env) : Except VErr AccV := do
   let e ← needReal (env.v .epsilon)
   let d ← needReal (env.v .delta)
   return { a with spent := a.spent ++ [(e, d)] }
+
+/-- an environment that binds only epsilon and delta -/
+def pairEnv (e d : PyVal) : Env := ⟨fun x => if x = .epsilon then e else if x = .delta then d else .int 1, fun _ => false⟩
+
+/-- `BudgetAccountant(epsilon, delta, spent_budget=prior)` with slack 0: the ceiling is validated, then EVERY prior
+entry goes through `spend` (hence through `check`), in order -/
+def AccV.new (ceilEps ceilDelta : PyVal) (prior : List (PyVal × PyVal)) : Except VErr AccV := do
+  runChain (pairEnv ceilEps ceilDelta) (checkEpsilonDelta false)
+  let ce ← needReal ceilEps
+  let cd ← needReal ceilDelta
+  prior.foldlM (fun a p => a.spend (pairEnv p.1 p.2)) ⟨ce, cd, []⟩
 
 /-- a tool / estimator entry: `check_bounds(bounds)` (when it has bounds) and `accountant.check(epsilon, 0)` precede
 every mechanism call -/
